@@ -567,7 +567,9 @@ class Machine:
     def _time_pattern(self) -> None:
         inst = self.current_inst
         if inst.param0 == SetOp.INIT:
-            self._reg.time = inst.param1
+            # The pattern belongs to the program (or to a macro): merge the
+            # alternatives into a private copy.
+            self._reg.time = inst.param1.copy()
         else:
             self._reg.time.union(inst.param1)
 
